@@ -71,7 +71,7 @@ char const *const all_entries[] = {
     // slice 4
     "box<int,1>", "box<int,2>", "box<unsigned,1>", "sphere<int,1>", "sphere<int,2>", "grid<int,1>", "grid<int,2>",
     // slice 5
-    "tree<int>", "raw_vector<int>", "raw_vector<char>"};
+    "tree<int>", "raw_vector<int>", "raw_vector<char>", "raw_vector<float>"};
 constexpr std::size_t n_entries = sizeof all_entries / sizeof all_entries[0];
 
 [[maybe_unused]] bool entry_selected(std::string const &name)
@@ -2820,7 +2820,18 @@ void raw_vector_family(std::string const &entry, std::size_t maxlen)
     return;
   using rv = fcppt::container::raw_vector::object<T>;
   family<rv> f;
-  auto val = [](int v) { return static_cast<T>(v); };
+  // floating point elements: the component 0 is alternately +0.0 and -0.0 - equal values with different bit patterns
+  // (== of the container is == of the elements, not of their bytes)
+  bool flip = false;
+  auto val = [&flip](int v) -> T {
+    if constexpr (std::is_floating_point_v<T>)
+      if (v == 0)
+      {
+        flip = !flip;
+        return flip ? T(0.0) : -T(0.0);
+      }
+    return static_cast<T>(v);
+  };
   for (std::size_t len = 0; len <= maxlen; ++len)
     for (comps const &c : sequences(len, 3))
     {
@@ -2834,6 +2845,13 @@ void raw_vector_family(std::string const &entry, std::size_t maxlen)
           x.push_back(v);
       }
       f.add("range constructor " + s, src.begin(), src.end());
+      if constexpr (std::is_floating_point_v<T>)
+      {
+        // the same values with the sign of every zero flipped: equal element by element, different bytes
+        rv &x = f.add("push_back, zeros with the other sign " + s);
+        for (T v : src)
+          x.push_back(v == T(0) ? -v : v);
+      }
       {
         rv &x = f.add("reserve(64) then push_back " + s);
         x.reserve(64);
@@ -2903,6 +2921,7 @@ void vf_slice_5()
   tree_family();
   raw_vector_family<int>("raw_vector<int>", vf::tier<std::size_t>(3, 4));
   raw_vector_family<char>("raw_vector<char>", 2);
+  raw_vector_family<float>("raw_vector<float>", 2);
 }
 #endif
 
